@@ -186,6 +186,33 @@ def w_twins(units):
     return evs
 
 
+def w_wide(jobs):
+    """Very wide nodes (hundreds of children), invalid nodes among the LATE siblings and below them: position among the
+    siblings is not depth, and every node is visited however many came before it."""
+    from metapype.model.node import Node
+    evs = []
+    for (parent, child, width) in jobs:
+        Node.store.clear()
+        root = Node("dataset")
+        root.add_child(Node("title", content="t"))
+        p = Node(parent)
+        root.add_child(p)
+        for i in range(width):
+            c = Node(child, content=None if i % 53 == 52 else "k%d" % i)      # now and then a child without its text
+            if i % 97 == 96:
+                c.add_attribute("zzForeign", "v")
+            if i == width - 1:
+                g = Node("zzUnknownBelowTheLast", content="x")
+                c.add_child(g)
+                g.add_child(Node("title"))
+            p.add_child(c)
+        ev = valtrace.observe_tree(root)
+        ev["desc"] = {"base": "wide", "parent": parent, "child": child, "children": width}
+        evs.append(ev)
+    Node.store.clear()
+    return evs
+
+
 def strip(ev):
     return {k: v for k, v in ev.items() if k != "desc"}
 
@@ -225,6 +252,9 @@ def run(rep, tier, seed):
     twins = [e for chunk in parallel(w_twins, sorted(t.rules)) for e in chunk]
     rep.notes["look_alike_twin_trees"] = len(twins)
     evs += twins
+    wide = [e for chunk in parallel(w_wide, [("keywordSet", "keyword", 400), ("access", "allow", 300), ("keywordSet", "keyword", 1100), ("zzUnknownParent", "para", 600),
+                                             ("attributeList", "attribute", 260)], chunk=1) for e in chunk]
+    evs += wide
     rep.notes["generated_bases_not_valid"] = bad_bases[:5]
     if bad_bases:
         # a base that does not validate is a C10/C01 matter; it still is a legitimate C05 input
